@@ -82,11 +82,13 @@ CommitFrom(tag, cls) ==
      Fresh([__query__], reified(Conj[__query__ == [q1, ..], Conj[body..]], __query__))
    and by the conformance harness, which appends a probe fngoal after reified (harness/src/build.rs,
    query_goal).  V(0) is __query__. *)
-QueryGoalOf(qvars, body) ==
+QueryGoalP(qvars, body, probe) ==
   LET qs == [i \in 1..Len(qvars) |-> V(qvars[i])]
       inner == FromArray("b", << <<"atom", <<"eq", V(0), ListOf(qs)>> >>,
                                  FromArray("b", BuildAll("b", ElabGs(body))) >>)
-  IN <<"fresh", FromArray("b", << <<"reified", inner, V(0)>>, <<"atom", <<"succeed">> >> >>)>>
+  IN IF probe THEN <<"fresh", FromArray("b", << <<"reified", inner, V(0)>>, <<"atom", <<"succeed">> >> >>)>>
+     ELSE <<"fresh", <<"reified", inner, V(0)>> >>
+QueryGoalOf(qvars, body) == QueryGoalP(qvars, body, TRUE)
 
 (* reify(x) = [enforce_constraints(x), fngoal ..]; enforce_constraints(x) =
    [enforce_constraints_fd(x), U::enforce_constraints(x)] with the default (succeed) user hook;
